@@ -104,6 +104,15 @@ Proof.
 Qed.
 Print Assumptions c14_filter_clean.
 
+(* ExactMatch (first-terminal matching from position 0): on a literal dictionary it accepts
+   exactly the members none of whose proper non-empty prefixes is a member *)
+Theorem c14_exact_match : forall ops s, literal_ops ops ->
+  exact_match (run ops) s = true <->
+  terminal (root (run ops)) s = true /\
+  forall w b, w <> [] -> b <> [] -> s = w ++ b -> terminal (root (run ops)) w = false.
+Proof. intros ops s Hl. apply exact_match_literal; [apply literal_run, Hl | apply root_not_end]. Qed.
+Print Assumptions c14_exact_match.
+
 (* on literal dictionaries Contains, Filter and ExactMatch are functions of the word set:
    two histories with the same words answer every text alike *)
 Theorem c14_matching_depends_only_on_words : forall ops1 ops2, literal_ops ops1 -> literal_ops ops2 ->
